@@ -42,7 +42,8 @@ JSON_KINDS = [("null", None), ("true", True), ("zero", 0), ("one", 1), ("minus1"
               ("inf", INF), ("neginf", -INF), ("nan", float("nan")), ("e308", 1e308), ("empty_str", ""), ("str", "x"),
               ("empty_list", []), ("list", ["x"]), ("empty_dict", {}), ("dict", {"x": "x"}), ("deep100", deep(100)),
               ("nonascii", "ключ é"), ("surrogate", "\ud800"), ("int400", 10 ** 400), ("negint400", -(10 ** 400)), ("float300", 1e300),
-              ("int_2_53", 2 ** 53 + 1)]
+              ("int_2_53", 2 ** 53 + 1), ("braces", "{}"), ("fmt_field", "{role}"), ("fmt_attr", "{0.__class__}"), ("percent", "%s %(x)d %"),
+              ("nul", "a\x00b"), ("long_str", "x" * 100000)]
 PY_KINDS = [("bytes", b"ab" * 32), ("bytearray", bytearray(b"ab")), ("tuple", ("x",)), ("set", {"x"}), ("frozenset", frozenset({"x"})),
             ("complex", 1j), ("decimal", decimal.Decimal("1")), ("fraction", fractions.Fraction(1, 1)), ("object", object()),
             ("strsub", StrSub("ab" * 32)), ("intsub", IntSub(1)), ("dictsub", DictSub()), ("timedelta", datetime.timedelta(1))]
